@@ -149,7 +149,7 @@ def codec_suite(ctx, vh, name, args):
     ctx.extra.setdefault("skipped_outside_model", 0)
     ctx.extra["skipped_outside_model"] += skipped
     # the property on the implementation's observations first
-    masks = ctx.coq_eval_values("codec_" + name, HDR,
+    masks = ctx.coq_eval_values("codec_" + name.replace("-", "_"), HDR,
                                 ["(let c := %s in (oracle_mask c, known_mask c, if agree c then 1 else 0)%%N)" % t for t in terms],
                                 shard=25)
     bad_agree = []
@@ -164,10 +164,13 @@ def codec_suite(ctx, vh, name, args):
         for bit, key in MASK.items():
             if not om & bit:
                 continue
-            what = "%s; packet %s: header %s, value %s -> frames %s%s" % (
-                WHAT[bit], r["label"], r["h"], str(r["v"])[:300], [bytes(f) for f in (r["frames"] or [])][:4],
+            what = "%s; %spacket %s: header %s, value %s -> frames %s%s" % (
+                WHAT[bit], ("while other goroutines were encoding their own values on the SAME parser (vh siocodec "
+                            + " ".join(str(a) for a in args) + "): ") if name == "shared-parser" else "",
+                r["label"], r["h"], str(r["v"])[:300], [bytes(f) for f in (r["frames"] or [])][:4],
                 (" [" + r["err"] + "]") if r["err"] else "")
-            replay = {"kind": "failing-input", "engine": "siocodec", "class": key, "case": r}
+            replay = {"kind": "failing-input", "engine": "siocodec", "class": key, "suite": name,
+                      "args": [str(a) for a in args], "case": r}
             if km & bit:
                 n_known += 1
                 ctx.fail_or_known(key, what, replay)
@@ -189,8 +192,35 @@ def codec_suite(ctx, vh, name, args):
                        "case": kept[i]}, no_input=True)
 
 
+def race_suite(ctx):
+    """The shared-parser run once more under the race detector: Encode calls that overlap on one
+    parser must not touch common memory (a reported race inside parser/json is a violation)."""
+    vhr = ctx.go_build(race=True)
+    if vhr is None:
+        return
+    args = ["siocodec", "-mode", "conc", "-g", 4, "-seed", int(ctx.seed) + 7, "-n", 8 if ctx.quick else 200,
+            "-out", ctx.work + "/race.jsonl"]
+    rc, out = ctx.vh(vhr, args, env={"GORACE": "halt_on_error=0 exitcode=66"})
+    races = out.count("WARNING: DATA RACE")
+    in_parser = "socket.io-go/parser/" in out
+    ctx.count(32 if ctx.quick else 800, dist="codec:race-detector")
+    ok = races == 0 and rc == 0
+    ctx.obligation("oracle:codec/shared-parser-race-detector", "oracle", ok,
+                   "4 goroutines encoding on one parser under -race: %d race reports, rc=%d" % (races, rc))
+    if races:
+        where = "inside parser/json" if in_parser else "outside the parser packages (harness?)"
+        ctx.violation("data race between Encode calls that share one parser (%s): Encode is not stateless; "
+                      "replay: vh(-race) siocodec -mode conc -g 4 -seed %d -n 8" % (where, int(ctx.seed) + 7),
+                      {"kind": "failing-input", "engine": "siocodec", "class": "encode-shares-state",
+                       "args": [str(a) for a in args], "report": out[:3000]})
+    elif rc != 0:
+        ctx.violation("race-detector run of the shared-parser suite failed (rc=%d)" % rc,
+                      {"kind": "correspondence-broken", "suite": "codec/shared-parser-race", "log": out[-2000:]},
+                      no_input=True)
+
+
 def json_suite(ctx, vh):
-    rows = ctx.vh_jsonl(vh, "siocodec", ["-mode", "json", "-seed", ctx.seed, "-n", 150 if ctx.quick else 10000])
+    rows = ctx.vh_jsonl(vh, "siocodec", ["-mode", "json", "-seed", ctx.seed, "-n", 100 if ctx.quick else 10000])
     if rows is None:
         return
     pterms, pexp, uterms, uexp = [], [], [], []
@@ -236,6 +266,10 @@ def run(ctx):
     if vh is None:
         return
     codec_suite(ctx, vh, "fixed", ["-mode", "fixed"])
-    codec_suite(ctx, vh, "generated", ["-mode", "codec", "-seed", ctx.seed, "-n", 70 if ctx.quick else 6000])
+    # Encode as the library uses it: several goroutines, each with its own values, on ONE parser
+    # (C09_concurrent_encode: any interleaving = the calls run alone, so every row is an ordinary case)
+    codec_suite(ctx, vh, "shared-parser", ["-mode", "conc", "-g", 4, "-seed", ctx.seed, "-n", 12 if ctx.quick else 400])
+    race_suite(ctx)
+    codec_suite(ctx, vh, "generated", ["-mode", "codec", "-seed", ctx.seed, "-n", 45 if ctx.quick else 6000])
     codec_suite(ctx, vh, "refused", ["-mode", "codec", "-hard", "-seed", int(ctx.seed) + 1, "-n", 20 if ctx.quick else 1500])
     json_suite(ctx, vh)
